@@ -572,7 +572,7 @@ fn main() {
         }
         // passes: (depth, deep rows only?)
         // passes: (depth, number of rows in the alphabet; 0 = all rows of the start)
-        let passes: Vec<(usize, usize)> = if ctx.quick() { vec![(3, 5), (8, 2)] } else { vec![(3, 0), (4, 4), (5, 3), (12, 2)] };
+        let passes: Vec<(usize, usize)> = if ctx.quick() { vec![(3, 4), (8, 2)] } else { vec![(3, 0), (4, 4), (5, 3), (12, 2)] };
         let mut total = Stats::default();
         let mut per_start = vec![];
         let mut repr_changes: BTreeMap<String, u64> = BTreeMap::new();
@@ -625,7 +625,7 @@ fn main() {
         );
         ctx.cov("starts", json!(per_start));
         ctx.cov("representation_changes_exercised", json!(repr_changes));
-        ctx.cov("passes", if ctx.quick() { "from each start: depth 3 over 5 of its rows; depth 8 (fixpoint) over the 2 rows that drive representation changes (separate visited sets; states/transitions are summed over passes)" } else { "from each start: depth 3 over all its rows; depth 4 over 4 rows; depth 5 over 3 rows; depth 12 (fixpoint) over 2 rows (rows that drive representation changes first; separate visited sets; states/transitions are summed over passes)" });
+        ctx.cov("passes", if ctx.quick() { "from each start: depth 3 over 4 of its rows; depth 8 (fixpoint) over the 2 rows that drive representation changes (separate visited sets; states/transitions are summed over passes)" } else { "from each start: depth 3 over all its rows; depth 4 over 4 rows; depth 5 over 3 rows; depth 12 (fixpoint) over 2 rows (rows that drive representation changes first; separate visited sets; states/transitions are summed over passes)" });
         ctx.assume("PropertyValue::Null as a *set* value is not in the alphabet: whether it stores a null or removes the key is not fixed by the property");
         ctx.assume("get_property_keys is compared as a set (plus: no duplicates); key order is column creation order and not part of the property");
         ctx.assume("after every step the alphabet rows and their +-1 neighbours are re-read through the whole read API (get_property, get_by_id, Column::has, get_property_keys, Column::len); after a step that changes a column's variant / sparse-dense state / base / span every prefilled row of that column (1023..2048 rows) is re-read as well");
